@@ -339,6 +339,7 @@ def run(ctx: Ctx) -> int:
         monitor(ctx, res.trace, devs, src, n)
     break_guard(ctx)
     lateinit.check(ctx, "split:prologue-order", 40, 400)
+    lateinit.check(ctx, "split:value-does-not-persist", 40, 400, passes=3, family=lateinit.persist_scripts)
     ctx.cov["rule"] = ("random device sets (1-5 devices of 9 kinds on distinct pins + serial) declared before the main loop or (hoistable kinds) at the top of its body, "
                        "uses and marker statements in both phases, N in {0,1,3}; every sketch compiled and run; plus `break` under random nestings of if/elif/else/try/except/for/while/for-else in the main loop; distinct = distinct scripts")
     return ctx.finish(TRUSTED, search=None)
